@@ -71,6 +71,7 @@ class World(object):
         self.run_counter = 0      # run() calls since the op started
         self.fault_at = None      # {'at_run': k, 'kind': 'fail'|'nan'}
         self.fault_magic = {}     # float value -> kind
+        self.magic_fired = set()  # magic values that reached the solver
         self.faults_enabled = True
         self.fired = {}           # fault kind -> count (actually fired)
         self.probes = {}          # probe name -> count
@@ -134,6 +135,7 @@ class World(object):
                     k = self.fault_magic.get(v)
                     if k is not None:
                         fault = k
+                        self.magic_fired.add(float(v))
                         break
         self.log('run', idx, t0, t1, len(log_times), rec['protocol'],
                  rec['sens'], fault)
